@@ -27,6 +27,7 @@ RULE = (
     "spelled ones, payload literal) or definite reject (ValidationError from MessageSchema.load and InvalidMessageError from "
     "Gateway.listen, nothing else); a non-canonical int()-parsable spelling is don't-care on the verdict but never another exception. "
     "Non-trivial = field count != 6, or a boundary/over-range numeric, or a cross-field rule decided; distinct = distinct (version, line)."
+    ' Round 5: cases also run with the library logging at DEBUG, with set-up in a foreign context/thread, and with the same line spelled as MQTT topic levels + payload through a real MQTTClient on a fake broker (same reference verdict).'
 )
 ASSUMPTIONS = [
     "spelling classes: canonical -?(0|[1-9][0-9]*); anything else int() parses is a grey zone (verdict not demanded)",
@@ -194,7 +195,10 @@ def _via_mqtt(version: str, line: str, ctx: str | None):
             finally:
                 await agen.aclose()
         finally:
-            await transport.disconnect()
+            try:
+                await transport.disconnect()
+            except BaseException:  # noqa: BLE001 - disconnect behaviour is C18's subject
+                pass
 
     return run_virtual(main)[0]
 
